@@ -151,15 +151,12 @@ func arrayHasSuffix(suffix rel.Value, subject rel.Array) (rel.Value, error) {
 
 	subjectVals := subject.Values()
 	suffixVals := suffixArray.Values()
-	suffixOffset := suffixArray.Count() - 1
-
-	for _, val := range subjectVals[subject.Count()-1:] {
-		if suffixOffset > -1 && val.Equal(suffixVals[suffixOffset]) {
-			suffixOffset--
-			if suffixOffset == -1 {
-				break
-			}
-		} else {
+	if len(subjectVals) < len(suffixVals) {
+		return rel.NewBool(false), nil
+	}
+	offset := len(subjectVals) - len(suffixVals)
+	for i, val := range suffixVals {
+		if val == nil || subjectVals[offset+i] == nil || !subjectVals[offset+i].Equal(val) {
 			return rel.NewBool(false), nil
 		}
 	}
@@ -205,25 +202,14 @@ func arrayTrimSuffix(suffix rel.Value, subject rel.Array) (rel.Value, error) {
 // Case: subject=[1,2,3,4], sub=[2,3], return 1
 // Case: subject=[1,2,3,4], sub=[2,5], return -1
 func search(subject, sub []rel.Value) int {
-	subjectOffset, subOffset := 0, 0
-
-	for ; subjectOffset < len(subject); subjectOffset++ {
-		if subOffset < len(sub) && subject[subjectOffset].Equal(sub[subOffset]) {
-			subOffset++
-		} else {
-			if subOffset > 0 && subOffset < len(sub) {
-				subOffset = 0
-				subjectOffset--
-			}
+	for i := 0; i+len(sub) <= len(subject); i++ {
+		j := 0
+		for j < len(sub) && subject[i+j] != nil && sub[j] != nil && subject[i+j].Equal(sub[j]) {
+			j++
 		}
-		if subOffset == len(sub) {
-			break
+		if j == len(sub) {
+			return i
 		}
-	}
-
-	if subjectOffset < len(subject) {
-		// see len(sub) > 1
-		return (subjectOffset + 1) - len(sub)
 	}
 	return -1
 }
